@@ -196,13 +196,20 @@ fn umad_jobs(seed: u64, jobs: &mut Vec<Job>) {
             v.push(Stat::new("Umad<Vector>/addition-rate", format!("{label}: new gene present (added and not deleted)"), out[0] + out[2], n, pn));
             Ok(v)
         }));
-        for len in [5usize, 64] {
-            for plushy in [false, true] {
-                if plushy && len == 64 {
-                    continue;
-                }
+        for (len, plushy, ctor) in [(5usize, false, 0u8), (64, false, 0), (5, true, 0), (5, false, 1), (5, false, 2), (9, true, 1), (9, false, 3)] {
+            {
                 let kind = if plushy { "Plushy" } else { "Vector" };
-                let label = format!("Umad({a}, {d}) on {kind} of {len}");
+                // the other constructors must apply the same per-gene rates to non-empty genomes
+                let empty_rate = match ctor { 1 => 0.77, 3 => 0.0, _ => a };
+                let ctor_name = match ctor { 0 => "new", 1 | 3 => "new_with_empty_rate", _ => "new_without_empty" };
+                let label = format!("Umad::{ctor_name}({a}, {}{d}) on {kind} of {len}", if ctor == 1 || ctor == 3 { format!("empty {empty_rate}, ") } else { String::new() });
+                fn mk<G>(ctor: u8, a: f64, e: f64, d: f64, g: G) -> Umad<G> {
+                    match ctor {
+                        0 => Umad::new(a, d, g),
+                        1 | 3 => Umad::new_with_empty_rate(a, e, d, g),
+                        _ => Umad::new_without_empty(a, d, g),
+                    }
+                }
                 jobs.push(job(label.clone(), move |n, seed| {
                     let muts = (n / len as u64).max(n / 16);
                     let mut rng = StdRng::seed_from_u64(seed);
@@ -210,7 +217,7 @@ fn umad_jobs(seed: u64, jobs: &mut Vec<Job>) {
                     let mut surv_at = vec![0u64; len];
                     for _ in 0..muts {
                         if plushy {
-                            let u = Umad::new(a, d, NewPushGene);
+                            let u = mk(ctor, a, empty_rate, d, NewPushGene);
                             let parent = Plushy::new((0..len as i64).map(|i| PushGene::Instruction(PushInstruction::push_int(i))));
                             let Ok(c) = u.mutate(parent, &mut rng);
                             for g in c.get_genes() {
@@ -222,7 +229,7 @@ fn umad_jobs(seed: u64, jobs: &mut Vec<Job>) {
                                 }
                             }
                         } else {
-                            let u = Umad::new(a, d, NewGene);
+                            let u = mk(ctor, a, empty_rate, d, NewGene);
                             let Ok(c) = u.mutate(Vector { genes: (0..len as u32).map(Tg::Parent).collect::<Vec<_>>() }, &mut rng);
                             for g in &c.genes {
                                 size += 1;
